@@ -29,7 +29,11 @@ FORMS = {
     "author": [(["author: A. Person"], "A. Person", "A. Person")],
     "display": [(["display: public"], ["public"], ["public"]), (["display: public", "    private"], ["public", "private"], ["public", "private"]),
                 (["display: Public", "         PROTECTED"], ["Public", "PROTECTED"], ["public", "protected"])],
-    "exclude": [(["exclude: a.f90"], ["a.f90"], ["a.f90"]), (["exclude: a.f90", "    b.f90"], ["a.f90", "b.f90"], ["a.f90", "b.f90"])],
+    "exclude": [(["exclude: a.f90"], ["a.f90"], ["a.f90"]), (["exclude: a.f90", "    b.f90"], ["a.f90", "b.f90"], ["a.f90", "b.f90"]),
+                (["exclude: a.f90"], "a.f90", ["a.f90"])],  # TOML scalar for a list option
+    "extensions": [(["extensions: f90"], ["f90"], "EXT:f90"), (["extensions: f90"], "f90", "EXT:f90"),
+                   (["extensions: f90", "    f03"], ["f90", "f03"], "EXT:f03,f90")],
+    "fixed_extensions": [(["fixed_extensions: for"], ["for"], ["for"]), (["fixed_extensions: for"], "for", ["for"])],
     "alias": [(["alias: a = b"], {"a": "b"}, {"a": "b"}), (["alias: a = b", "    c = d e"], {"a": "b", "c": "d e"}, {"a": "b", "c": "d e"})],
     "docmark": [(["docmark: ~"], "~", "~"), (["docmark: %"], "%", "%")],
 }
@@ -39,6 +43,10 @@ def _effective(s, key):
     v = getattr(s, key)
     if key == "alias":
         return {k: v[k] for k in sorted(v)}
+    if key == "extensions":
+        # __post_init__ merges the pre-processed extensions in (a set union): compare the free-form part, order-free
+        fpp = list(s.fpp_extensions)
+        return choice.apply(lambda *xs: "EXT:" + ",".join(sorted((x for x in xs if x not in fpp), key=lambda t: t.lower())), *list(v))
     return v
 
 
@@ -57,8 +65,11 @@ def _from_toml(key, native):
 
 
 def replay_formats(w):
-    a = _effective(_from_md(w["md"]), w["key"])
-    b = _effective(_from_toml(w["key"], w["native"]), w["key"])
+    try:
+        a = _effective(_from_md(w["md"]), w["key"])
+        b = _effective(_from_toml(w["key"], w["native"]), w["key"])
+    except Exception as e:  # noqa
+        return True, {"key": w["key"], "markdown_lines": w["md"], "native": w["native"], "ford": "raised " + repr(e)[:200]}
     bad = a != w["expected"] or b != w["expected"]
     return bad, {"key": w["key"], "markdown_lines": w["md"], "from_markdown": repr(a), "from_toml": repr(b), "expected": repr(w["expected"])}
 
@@ -79,8 +90,13 @@ def formats(ctx):
         def h(E, key=key):
             o = CV.choice(E, "form", FORMS[key]) if len(FORMS[key]) > 1 else FORMS[key][0]
             h.o = o
-            a = _effective(_from_md(o[0]), key)
-            b = _effective(_from_toml(key, o[1]), key)
+            try:
+                a = _effective(_from_md(o[0]), key)
+                b = _effective(_from_toml(key, o[1]), key)
+            except (ValueError, RuntimeError, TypeError) as e:
+                E.reachable("converted")
+                E.require(False, "a valid option value is rejected: " + type(e).__name__)
+                return
             E.reachable("converted")
             E.require(choice.apply(lambda x, y, e: x == e and y == e, a, b, o[2]), "effective value differs between the formats")
 
